@@ -58,7 +58,7 @@ func (P *Program) condFormula(v ssa.Value, depth int) *formula {
 	case *ssa.BinOp:
 		switch x.Op {
 		case token.EQL, token.NEQ:
-			a, b := P.Desc(x.X), P.Desc(x.Y)
+			a, b := P.KeyDesc(x.X), P.KeyDesc(x.Y)
 			X, Y := x.X, x.Y
 			if a > b {
 				a, b = b, a
@@ -81,7 +81,7 @@ func (P *Program) condFormula(v ssa.Value, depth int) *formula {
 			case token.GEQ: // X >= Y == !(X < Y)
 				neg = true
 			}
-			f := &formula{op: "leaf", lit: Lit{Key: "lt(" + P.Desc(X) + ", " + P.Desc(Y) + ")", Pos: true, Val: v, Kind: "lt", X: X, Y: Y}}
+			f := &formula{op: "leaf", lit: Lit{Key: "lt(" + P.KeyDesc(X) + ", " + P.KeyDesc(Y) + ")", Pos: true, Val: v, Kind: "lt", X: X, Y: Y}}
 			if neg {
 				return &formula{op: "not", sub: []*formula{f}}
 			}
@@ -151,7 +151,7 @@ func (P *Program) inlineBoolHelper(call *ssa.Call, k int, depth int) *formula {
 }
 
 func (P *Program) leaf(v ssa.Value) *formula {
-	return &formula{op: "leaf", lit: Lit{Key: P.Desc(v), Pos: true, Val: v, Kind: "cond"}}
+	return &formula{op: "leaf", lit: Lit{Key: P.KeyDesc(v), Pos: true, Val: v, Kind: "cond"}}
 }
 
 // phiFormula recognises the two exact short-circuit shapes:
@@ -676,15 +676,36 @@ func (P *Program) litHelperCall(l Lit) (*ssa.Call, int) {
 	return call, k
 }
 
-// Expand adds, for every literal that is a call of a product bool function, the literals its result implies.
+// Expand adds, for every literal that is a call of a product bool function, the literals its result implies; and
+// for every literal "the pointer/slice returned by product helper h is not nil", the conditions common to all the
+// ways h returns something other than the constant nil (read in the calling context of that call).
 func (P *Program) Expand(lits []Lit) []Lit {
 	out := append([]Lit{}, lits...)
 	seen := map[string]bool{}
 	for _, l := range out {
 		seen[l.String()] = true
 	}
+	addAll := func(add []Lit, via string) {
+		for _, a := range add {
+			if a.Kind == "rangeloop" || a.Kind == "rangefunc" {
+				continue
+			}
+			if a.Via == "" {
+				a.Via = via
+			}
+			if !seen[a.String()] {
+				seen[a.String()] = true
+				out = append(out, a)
+			}
+		}
+	}
 	for i := 0; i < len(out) && i < 600; i++ {
 		l := out[i]
+		if call, k := P.nonNilHelperResult(l); call != nil {
+			callee := call.Call.StaticCallee()
+			addAll(P.nonNilSummary(call, k), FuncName(callee))
+			continue
+		}
 		call, k := P.litHelperCall(l)
 		if call == nil {
 			continue
@@ -698,20 +719,93 @@ func (P *Program) Expand(lits []Lit) []Lit {
 		if l.Pos {
 			add = sum.trueLits
 		}
-		for _, a := range add {
-			if a.Kind == "rangeloop" || a.Kind == "rangefunc" {
-				continue
-			}
-			if a.Via == "" {
-				a.Via = FuncName(callee)
-			}
-			if !seen[a.String()] {
-				seen[a.String()] = true
-				out = append(out, a)
-			}
-		}
+		addAll(add, FuncName(callee))
 	}
 	return out
+}
+
+// nonNilHelperResult: literal l says that result #k of a call of a non-anchor product helper is not nil.
+func (P *Program) nonNilHelperResult(l Lit) (*ssa.Call, int) {
+	if l.Kind != "eq" || l.Pos || l.X == nil || l.Y == nil {
+		return nil, 0
+	}
+	var v ssa.Value
+	switch {
+	case isNilConst(l.X):
+		v = l.Y
+	case isNilConst(l.Y):
+		v = l.X
+	default:
+		return nil, 0
+	}
+	// look through a single-assignment local variable
+	for i := 0; i < 4; i++ {
+		u, ok := v.(*ssa.UnOp)
+		if !ok || u.Op != token.MUL {
+			break
+		}
+		cell := P.cellOf(u.X)
+		if cell == nil {
+			break
+		}
+		vals, _, escaped := P.CellStores(cell)
+		if escaped || len(vals) != 1 {
+			break
+		}
+		v = vals[0]
+	}
+	var call *ssa.Call
+	k := 0
+	switch x := v.(type) {
+	case *ssa.Call:
+		call = x
+	case *ssa.Extract:
+		c, ok := x.Tuple.(*ssa.Call)
+		if !ok {
+			return nil, 0
+		}
+		call, k = c, x.Index
+	default:
+		return nil, 0
+	}
+	callee := call.Call.StaticCallee()
+	if callee == nil || !P.IsProductFunc(callee) || len(callee.Blocks) == 0 || P.isAnchor(callee) || P.inlineBusy[callee] {
+		return nil, 0
+	}
+	return call, k
+}
+
+// nonNilSummary: the literals that hold on every return of the callee whose result #k is not the constant nil.
+func (P *Program) nonNilSummary(call *ssa.Call, k int) []Lit {
+	callee := call.Call.StaticCallee()
+	if P.inlineBusy == nil {
+		P.inlineBusy = map[*ssa.Function]bool{}
+	}
+	P.inlineBusy[callee] = true
+	defer delete(P.inlineBusy, callee)
+	var res litSet
+	first := true
+	P.PinnedAll(map[*ssa.Function]ssa.CallInstruction{callee: call}, func() {
+		allInstrs(callee, func(b *ssa.BasicBlock, ins ssa.Instruction) {
+			r, ok := ins.(*ssa.Return)
+			if !ok || k >= len(r.Results) || isNilConst(r.Results[k]) {
+				return
+			}
+			g := P.BlockGuards(b)
+			// a result that is itself another helper's non-nil result / a phi of such is not followed: its own
+			// literal (result != nil) is not implied here
+			set := newLitSet(g)
+			if first {
+				res, first = set, false
+			} else {
+				res = res.intersect(set)
+			}
+		})
+	})
+	if first {
+		return nil
+	}
+	return res.list()
 }
 
 // BlockCutBy: does every path from entry to b take an edge carrying a literal that satisfies pred?
